@@ -48,8 +48,11 @@ def rule_loop(ctx: Ctx, qual: str) -> None:
     cell = f"({rv}, {cvr})"
     # dsp = int((disp[row, col] - d_min) * subpixel)
     dd = defs.all_defs("dsp")
-    want = canon(ast.parse(f"int(({disp}[{rv}, {cvr}] - {dmin}) * {subpix})", mode="eval").body)
-    ctx.ob("C06.INDEX", R, dd[0][0] if dd else fn, f"{qual}: dsp = {canon(dd[0][1]) if dd else '?'}", len(dd) == 1 and canon(dd[0][1]) == want, expected=want, detail="the plane of the current disparity is (disparity - first disparity) * subpix: any other conversion reads the cost triple of another disparity")
+    x = f"(({disp}[{rv}, {cvr}] - {dmin}) * {subpix})"
+    wants = [canon(ast.parse(t, mode="eval").body) for t in (f"int(np.floor({x} + 0.5))", f"int(np.rint({x}))", f"int(round({x}))", f"int(math.floor({x} + 0.5))", f"int({x} + 0.5)")]
+    trunc = canon(ast.parse(f"int({x})", mode="eval").body)
+    got = canon(dd[0][1]) if dd else "?"
+    ctx.ob("C06.INDEX", R, dd[0][0] if dd else fn, f"{qual}: dsp = {got}", len(dd) == 1 and got in wants, expected=wants[0], detail="the plane is the sample *nearest* to the received disparity, (disparity - first disparity) * subpix rounded: " + ("truncation picks the sample below an off-grid disparity (after a filter or an earlier refinement), so the result can end more than half a sample away from the received value and drifts upwards on repetition" if got == trunc else "any other conversion reads the cost triple of another disparity"))
     inv = boolform(ast.parse(f"({mask}[{rv}, {cvr}] & cst.PANDORA_MSK_PIXEL_INVALID) == 0", mode="eval").body)
     notnan = B("not", boolform(ast.parse(f"np.isnan({cv}[{rv}, {cvr}, dsp])", mode="eval").body))
     # "the sample has a neighbour on both sides" is a statement about the sample *index* used for the accesses
@@ -101,8 +104,9 @@ def rule_loop(ctx: Ctx, qual: str) -> None:
         else:
             d1 = holds(g, interior)
             ctx.ob("C06.LOOP-GUARDS", R, st, f"{qual}: `{src(st)[:70]}` only when the sample is strictly inside the interval", d1 is None, detail=f"the guard does not imply 0 < dsp < planes - 1 for the index that is used: on the first / last sample dsp-1 / dsp+1 index outside the cost volume (numba does not bounds-check, -1 wraps around to the last plane) and the refined disparity can leave the interval; a test on the disparity value instead of the index misses off-grid disparities (after a filter or an earlier refinement): {d1}")
-            d2 = holds(B("and", [inv, notnan, interior]), g)
-            ctx.ob("C06.LOOP-GUARDS", R, st, f"{qual}: every valid interior pixel reaches `{src(st)[:50]}`", d2 is None, detail=f"{d2}")
+            succ = [boolform(t) for t, pol in guards_of(st, stop=fn) if pol and isinstance(t, ast.Compare) and isinstance(t.left, ast.Name) and t.left.id == "valid" and canon(t.comparators[0]) == "0"]
+            d2 = holds(B("and", [inv, notnan, interior] + succ), g)
+            ctx.ob("C06.LOOP-GUARDS", R, st, f"{qual}: every valid interior pixel{' the method accepts' if succ else ''} reaches `{src(st)[:50]}`", d2 is None, detail=f"{d2}")
     # the method call
     mc = [c for c in calls_in(fn) if isinstance(c.func, ast.Name) and c.func.id == method]
     ctx.floor(f"C06.LOOP-GUARDS({qual} method call)", len(mc), 1)
@@ -115,8 +119,10 @@ def rule_loop(ctx: Ctx, qual: str) -> None:
     if len(names) == 3:
         sd, sc, vl = names
         dst = [st for st, t in stores if t.value.id == disp]
-        okd = len(dst) == 1 and isinstance(dst[0], ast.Assign) and poly(dst[0].value) == poly(ast.parse(f"{disp}[{rv}, {cvr}] + {sd} / {subpix}", mode="eval").body)
-        ctx.ob("C06.LOOP-GUARDS", R, dst[0] if dst else fn, f"{qual}: {src(dst[0])[:90] if dst else 'disparity update'}", okd, expected=f"{disp}[{rv}, {cvr}] + {sd} / {subpix}", detail="the sub-sample shift returned by the method is expressed in samples: it must be divided by subpix exactly once and added to the current disparity")
+        okd = len(dst) == 1 and isinstance(dst[0], ast.Assign) and poly(dst[0].value) == poly(ast.parse(f"{dmin} + (dsp + {sd}) / {subpix}", mode="eval").body)
+        ctx.ob("C06.LOOP-GUARDS", R, dst[0] if dst else fn, f"{qual}: {src(dst[0])[:90] if dst else 'disparity update'}", okd, expected=f"{dmin} + (dsp + {sd}) / {subpix}", detail="the fitted optimum is relative to the *sample* the three costs were taken around: sample disparity (d_min + dsp / subpix) plus the shift in samples divided by subpix exactly once. Adding the shift to the received disparity is the same only for on-grid input; for a filtered or already refined disparity the result leaves the half-sample bound and can pass d_max")
+        gd = [t for t, pol in guards_of(dst[0], stop=fn) if pol and equivalent(boolform(t), boolform(ast.parse(f"{vl} == 0", mode="eval").body)) is None] if dst else []
+        ctx.ob("C06.LOOP-GUARDS", R, dst[0] if dst else fn, f"{qual}: the disparity is replaced only when the method succeeded ({vl} == 0)", bool(gd), expected=f"if {vl} == 0: {disp}[{rv}, {cvr}] = ...", detail="a pixel the method refuses (bit 3: not an extremum, NaN neighbour) must be left where it was, even when it was off the sampling grid")
         ist = [st for st in walk_no_nested(fn) if isinstance(st, ast.Assign) and canon(st.targets[0]) == f"itp_coeff[{cell}]" and canon(st.value) in (sc, "cost")]
         # (the approximate variant recomputes the cost; accept `cost` only there)
         ctx.ob("C06.LOOP-GUARDS", R, ist[0] if ist else fn, f"{qual}: interpolated coefficient = {canon(ist[0].value) if ist else '?'}", bool(ist), expected=f"itp_coeff[{rv}, {cvr}] = {sc}", detail="the stored coefficient must be the fitted cost")
@@ -252,16 +258,20 @@ SPEC = PropSpec(
 )
 
 MUTANTS = [
-    {"id": "remove-invalid-guard", "file": R, "old": "                if (mask[row, col] & cst.PANDORA_MSK_PIXEL_INVALID) != 0:\n                    itp_coeff[row, col] = np.nan\n                else:\n                    # conversion to numpy indexing\n                    dsp = int((disp[row, col] - d_min) * subpixel)\n                    itp_coeff[row, col] = cv[row, col, dsp]\n                    if not np.isnan(cv[row, col, dsp]):\n                        # The sample must have a neighbour on both sides: test its index, not the disparity value\n                        # (a filtered or already refined disparity is not on the sampling grid)\n                        if (dsp != 0) and (dsp != n_disp - 1):\n                            sub_disp, sub_cost, valid = method(", "new": "                if (mask[row, col] & cst.PANDORA_MSK_PIXEL_OCCLUSION) != 0:\n                    itp_coeff[row, col] = np.nan\n                else:\n                    # conversion to numpy indexing\n                    dsp = int((disp[row, col] - d_min) * subpixel)\n                    itp_coeff[row, col] = cv[row, col, dsp]\n                    if not np.isnan(cv[row, col, dsp]):\n                        # The sample must have a neighbour on both sides: test its index, not the disparity value\n                        # (a filtered or already refined disparity is not on the sampling grid)\n                        if (dsp != 0) and (dsp != n_disp - 1):\n                            sub_disp, sub_cost, valid = method("},
+    {"id": "remove-invalid-guard", "file": R, "old": "                if (mask[row, col] & cst.PANDORA_MSK_PIXEL_INVALID) != 0:\n                    itp_coeff[row, col] = np.nan\n                else:\n                    # conversion to numpy indexing\n                    # nearest sample of the grid (a filtered or already refined disparity is not on the grid)\n                    dsp = int(np.floor((disp[row, col] - d_min) * subpixel + 0.5))\n                    itp_coeff[row, col] = cv[row, col, dsp]\n                    if not np.isnan(cv[row, col, dsp]):\n                        # The sample must have a neighbour on both sides: test its index, not the disparity value\n                        # (a filtered or already refined disparity is not on the sampling grid)\n                        if (dsp != 0) and (dsp != n_disp - 1):\n                            sub_disp, sub_cost, valid = method(", "new": "                if (mask[row, col] & cst.PANDORA_MSK_PIXEL_OCCLUSION) != 0:\n                    itp_coeff[row, col] = np.nan\n                else:\n                    # conversion to numpy indexing\n                    # nearest sample of the grid (a filtered or already refined disparity is not on the grid)\n                    dsp = int(np.floor((disp[row, col] - d_min) * subpixel + 0.5))\n                    itp_coeff[row, col] = cv[row, col, dsp]\n                    if not np.isnan(cv[row, col, dsp]):\n                        # The sample must have a neighbour on both sides: test its index, not the disparity value\n                        # (a filtered or already refined disparity is not on the sampling grid)\n                        if (dsp != 0) and (dsp != n_disp - 1):\n                            sub_disp, sub_cost, valid = method("},
     {"id": "interior-only-min-side", "file": R, "old": "                        if (dsp != 0) and (dsp != n_disp - 1):\n", "new": "                        if dsp != 0:\n"},
-    {"id": "swap-neighbours", "file": R, "old": "                                    cv[row, col, dsp - 1],\n                                    cv[row, col, dsp],\n                                    cv[row, col, dsp + 1],\n                                ],  # type: ignore\n                                disp[row, col],\n                                measure,  # type: ignore\n                            )\n\n                            disp[row, col] = disp[row, col] + (sub_disp / subpixel)\n                            itp_coeff[row, col] = sub_cost", "new": "                                    cv[row, col, dsp + 1],\n                                    cv[row, col, dsp],\n                                    cv[row, col, dsp - 1],\n                                ],  # type: ignore\n                                disp[row, col],\n                                measure,  # type: ignore\n                            )\n\n                            disp[row, col] = disp[row, col] + (sub_disp / subpixel)\n                            itp_coeff[row, col] = sub_cost"},
-    {"id": "shift-times-subpix", "file": R, "old": "                            disp[row, col] = disp[row, col] + (sub_disp / subpixel)\n                            itp_coeff[row, col] = sub_cost", "new": "                            disp[row, col] = disp[row, col] + (sub_disp * subpixel)\n                            itp_coeff[row, col] = sub_cost"},
+    {"id": "swap-neighbours", "file": R, "old": "                                    cv[row, col, dsp - 1],\n                                    cv[row, col, dsp],\n                                    cv[row, col, dsp + 1],\n                                ],  # type: ignore\n                                disp[row, col],\n                                measure,  # type: ignore\n                            )\n\n                            if valid == 0:\n                                # the optimum is relative to the sample, not to the received (off-grid) disparity\n                                disp[row, col] = d_min + (dsp + sub_disp) / subpixel\n                            itp_coeff[row, col] = sub_cost", "new": "                                    cv[row, col, dsp + 1],\n                                    cv[row, col, dsp],\n                                    cv[row, col, dsp - 1],\n                                ],  # type: ignore\n                                disp[row, col],\n                                measure,  # type: ignore\n                            )\n\n                            if valid == 0:\n                                # the optimum is relative to the sample, not to the received (off-grid) disparity\n                                disp[row, col] = d_min + (dsp + sub_disp) / subpixel\n                            itp_coeff[row, col] = sub_cost"},
+    {"id": "shift-times-subpix", "file": R, "old": "                                disp[row, col] = d_min + (dsp + sub_disp) / subpixel\n", "new": "                                disp[row, col] = d_min + (dsp + sub_disp * subpixel) / subpixel\n"},
+    {"id": "shift-added-to-the-received-disparity", "file": R, "old": "                                disp[row, col] = d_min + (dsp + sub_disp) / subpixel\n", "new": "                                disp[row, col] = disp[row, col] + (sub_disp / subpixel)\n"},
+    {"id": "sample-index-truncated", "file": R, "old": "                    dsp = int(np.floor((disp[row, col] - d_min) * subpixel + 0.5))\n", "new": "                    dsp = int((disp[row, col] - d_min) * subpixel)\n"},
+    {"id": "refused-pixel-snapped-to-its-sample", "file": R, "old": "                            if valid == 0:\n                                # the optimum is relative to the sample, not to the received (off-grid) disparity\n                                disp[row, col] = d_min + (dsp + sub_disp) / subpixel\n", "new": "                            disp[row, col] = d_min + (dsp + sub_disp) / subpixel\n"},
+    {"id": "eq-sample-index-by-rint", "kind": "equiv", "file": R, "old": "                    dsp = int(np.floor((disp[row, col] - d_min) * subpixel + 0.5))\n", "new": "                    dsp = int(np.rint((disp[row, col] - d_min) * subpixel))\n"},
     {"id": "vfit-returns-bit4", "file": VF, "old": "        if (np.isnan(cost[0])) or (np.isnan(cost[2])):\n            # Information: calculations stopped at the pixel step, sub-pixel interpolation did not succeed\n            return 0, cost[1], cst.PANDORA_MSK_PIXEL_STOPPED_INTERPOLATION", "new": "        if (np.isnan(cost[0])) or (np.isnan(cost[2])):\n            # Information: calculations stopped at the pixel step, sub-pixel interpolation did not succeed\n            return 0, cost[1], cst.PANDORA_MSK_PIXEL_FILLED_OCCLUSION"},
     {"id": "vfit-remove-abs-guard", "file": VF, "old": "        if abs(a) < 1.0e-15:\n            return 0, cost[1], 0\n", "new": ""},
     {"id": "quadratic-remove-flat-guard", "file": QD, "old": "        if alpha == 0:\n            return 0, cost[1], 0\n", "new": ""},
     {"id": "vfit-nonstrict-right", "file": VF, "old": "(inverse * cost[1] > inverse * cost[0]) or (inverse * cost[1] > inverse * cost[2])", "new": "(inverse * cost[1] > inverse * cost[0]) or (inverse * cost[1] >= inverse * cost[2])"},
     {"id": "quadratic-min-form", "file": QD, "old": "(inverse * cost[1] > inverse * cost[0]) or (inverse * cost[1] > inverse * cost[2])", "new": "inverse * cost[1] > inverse * min(cost[0], cost[2])"},
-    {"id": "dsp-without-subpix", "file": R, "old": "                    dsp = int((disp[row, col] - d_min) * subpixel)\n                    itp_coeff[row, col] = cv[row, col, dsp]\n                    if not np.isnan(cv[row, col, dsp]):\n                        # The sample must have a neighbour on both sides: test its index, not the disparity value\n                        # (a filtered or already refined disparity is not on the sampling grid)\n                        if (dsp != 0) and (dsp != n_disp - 1):\n                            sub_disp, sub_cost, valid = method(", "new": "                    dsp = int(disp[row, col] - d_min)\n                    itp_coeff[row, col] = cv[row, col, dsp]\n                    if not np.isnan(cv[row, col, dsp]):\n                        # The sample must have a neighbour on both sides: test its index, not the disparity value\n                        # (a filtered or already refined disparity is not on the sampling grid)\n                        if (dsp != 0) and (dsp != n_disp - 1):\n                            sub_disp, sub_cost, valid = method("},
+    {"id": "dsp-without-subpix", "file": R, "old": "                    # nearest sample of the grid (a filtered or already refined disparity is not on the grid)\n                    dsp = int(np.floor((disp[row, col] - d_min) * subpixel + 0.5))\n                    itp_coeff[row, col] = cv[row, col, dsp]\n                    if not np.isnan(cv[row, col, dsp]):\n                        # The sample must have a neighbour on both sides: test its index, not the disparity value\n                        # (a filtered or already refined disparity is not on the sampling grid)\n                        if (dsp != 0) and (dsp != n_disp - 1):\n                            sub_disp, sub_cost, valid = method(", "new": "                    dsp = int(disp[row, col] - d_min)\n                    itp_coeff[row, col] = cv[row, col, dsp]\n                    if not np.isnan(cv[row, col, dsp]):\n                        # The sample must have a neighbour on both sides: test its index, not the disparity value\n                        # (a filtered or already refined disparity is not on the sampling grid)\n                        if (dsp != 0) and (dsp != n_disp - 1):\n                            sub_disp, sub_cost, valid = method("},
     {"id": "mask-add-valid", "file": R, "old": "                            mask[row, col] |= valid\n                        else:\n                            # If Information: calculations stopped at the pixel step, sub-pixel interpolation did\n                            # not succeed\n                            mask[row, col] |= cst.PANDORA_MSK_PIXEL_STOPPED_INTERPOLATION\n\n        return itp_coeff, disp, mask\n\n    @staticmethod\n    @abstractmethod", "new": "                            mask[row, col] += valid\n                        else:\n                            # If Information: calculations stopped at the pixel step, sub-pixel interpolation did\n                            # not succeed\n                            mask[row, col] |= cst.PANDORA_MSK_PIXEL_STOPPED_INTERPOLATION\n\n        return itp_coeff, disp, mask\n\n    @staticmethod\n    @abstractmethod"},
     {"id": "dmax-from-attrs-swapped", "file": R, "old": '        d_min = cv.coords["disp"].data[0]\n        d_max = cv.coords["disp"].data[-1]\n        subpixel = cv.attrs["subpixel"]\n        measure = cv.attrs["type_measure"]\n\n        # This silences', "new": '        d_min = cv.coords["disp"].data[0]\n        d_max = cv.coords["disp"].data[-2]\n        subpixel = cv.attrs["subpixel"]\n        measure = cv.attrs["type_measure"]\n\n        # This silences'},
     {"id": "eq-interior-strict-inequalities", "kind": "equiv", "file": R, "old": "                        if (dsp != 0) and (dsp != n_disp - 1):\n", "new": "                        if 0 < dsp < n_disp - 1:\n"},
